@@ -408,6 +408,28 @@ impl Execute for ast::Pipeline {
         // Update exit status.
         shell.set_last_exit_status(result.exit_code.into());
 
+        // errexit and the ERR trap do not apply to a compound command other than a subshell
+        // whose status results from a failure that happened while errexit was being ignored
+        // (`{ false && true; }`, `for ...; do ! true; done`). Every other failure inside such
+        // a command has already been acted on by the pipeline it occurred in, so a grouping
+        // command running in this shell never needs to be judged a second time.
+        let already_judged = matches!(
+            self.seq.as_slice(),
+            [ast::Command::Compound(
+                ast::CompoundCommand::BraceGroup(_)
+                    | ast::CompoundCommand::ForClause(_)
+                    | ast::CompoundCommand::ArithmeticForClause(_)
+                    | ast::CompoundCommand::CaseClause(_)
+                    | ast::CompoundCommand::IfClause(_)
+                    | ast::CompoundCommand::WhileClause(_)
+                    | ast::CompoundCommand::UntilClause(_),
+                _
+            )]
+        );
+        if already_judged {
+            params.suppress_errexit = true;
+        }
+
         // Fire the ERR trap if the pipeline failed in a non-conditional context.
         // We reuse `suppress_errexit` here because bash suppresses the ERR trap in
         // exactly the same contexts it suppresses errexit (conditionals, `!`-prefixed
